@@ -225,7 +225,8 @@ def openBody (a : AEAD) (key : Bytes) (sequence : Nat) (aad ct : Bytes) : NRes B
 def encode (a : AEAD) (p : Packet) (cap : Nat) (protocolId : Nat) (crypto : Option (Nat × Bytes)) : NRes Bytes :=
   match p with
   | connectionRequest .. => do
-      let w ← io? ((Wr.new cap).writeAll [encodePrefix p.id 0])
+      -- connection requests are not encrypted and carry no sequence: the prefix is the packet type alone
+      let w ← io? ((Wr.new cap).writeAll [UInt8.ofNat p.id])
       let w ← io? (p.write w)
       pure w.out
   | _ =>
